@@ -112,6 +112,15 @@ PROPS = {
                         "built-in types and the standard scalars are left out of the model's schemas"],
         "partial": "'conforming => accepted' is decided per generated case (no formal grammar of the documented syntax); 'accepted => no planning or lookup error' is a theorem only up to the lookup table (C09_accepted_has_lookup_entries) and is otherwise exercised by serving accepted federations with random valid queries",
     },
+    "C17": {
+        "harness": [{"name": "c17"}],
+        "n_quick": 60, "n_thorough": 1500,
+        "known_for": ["C17"],
+        "assumptions": ["the standard introspection query of graphql-js (FullType/InputValue/TypeRef, seven levels of ofType, includeDeprecated: true) stands for 'the schema a client reconstructs'",
+                        "lists whose order comes from Go map iteration (types, directives, possibleTypes) are sorted by name on both sides before comparison",
+                        "'accepts exactly the queries the gateway accepts' is decided through equality of the reconstructed schema with the permitted part of the merged schema (C18's Selectable), not by enumerating queries"],
+        "partial": "equality of the reconstructed schema with the permitted part under permissions is decided per case (theorem: fields listed are selectable; the converse is refuted by the view findings); other query shapes (__type by name, aliases, includeDeprecated by literal and variable) are compared with projections of the standard answer by the harness, not modelled",
+    },
     "C08": {
         "harness": [{"name": "c08"}],
         "n_quick": 150, "n_thorough": 3000,
@@ -202,6 +211,11 @@ META = {
         "text": "Model of validate.go (every rule function, ValidateSchema's order, the visited-set recursion over namespace links) in Model/Validate.v. Theorems, for every schema: C09_accepted_obeys_rules (whatever is accepted satisfies each listed rule: root names, the exact shape of Query.service and Service, id: ID! on every boundary object, every marked lookup well typed in single or array form and exactly one per boundary object, namespace types only inside namespaces or roots, every namespace link reachable from a root non-null at any depth incl. cyclic namespaces - a DFS closure proof, validity after merge), C09_accepted_has_lookup_entries (the executor's lookup table then has an entry for every boundary type the service declares), C09_legacy_syntax_refuted (the former Node syntax is accepted and yields an empty lookup table: known finding). Tie on every run: service schemas of random federations x 41 single-rule mutations at random positions (AST level, reprinted and reloaded), verdict and failing stage of the real ValidateSchema vs the model; oracles: every rule-breaking mutant rejected with an error (never a panic), every conforming variant accepted, accepted federations polled and served with random valid queries without planning/lookup errors.",
         "note": "Three genuine defects found while modelling and repaired (fix: commits): nil Query dereference, unbounded recursion on cyclic namespaces, lookups unchecked when no boundary type is declared (then Arguments[0] panics in buildBoundaryFieldsMap). 'Follows the documented syntax' has no formal definition: the generator's conforming schemas stand for it.",
         "technique": "Coq model + proofs (case analysis per rule, counting lemma for 'exactly one', DFS-closure induction on fuel) + refutation witness; differential correspondence on mutated schemas; serve-and-query oracle",
+    },
+    "C17": {
+        "text": "Model of the hand-written introspection resolvers (executable_schema.go:340-620) specialised to the standard introspection query, reading either the merged schema or the permission-filtered view of Model/View.v, and of the inverse a client applies (answer -> schema) in Model/Introspect.v. Theorems: C17_reconstruction_roundtrip (for every schema whose references resolve and nest at most seven wrappers, reconstruct (introspect S) = normalize S: types, kinds, descriptions, fields, arguments with defaults, type references with list/non-null wrapping, deprecations, interfaces, possible types, enum values, input fields, directives) and C17_fields_confined_partial (with permissions, every field of every type the answer lists is selectable by a query that permission filtering leaves intact; composition with the C18 view theorem). Tie on every run: the standard query through the real gateway on merged schemas of fixtures and generated federations, with and without random permission trees; the model's JSON must equal the gateway's data exactly. Oracles: the reconstructed schema equals the permitted part, every type and field name revealed is permitted, no null among interfaces/possibleTypes/types, the round-trip hypothesis holds of the schema; __type by name (in view, outside, unknown), aliases and includeDeprecated (false, absent, variable) agree with projections of the standard answer; with introspection disabled no schema name is revealed.",
+        "note": "One defect repaired (fix: 74a57db directive argument types missing from the view). Known findings: the view lacks interfaces/unions reachable only through membership, so interfaces/possibleTypes contain null and the answer cannot be reconstructed (same root cause as KF-view-drops-types).",
+        "technique": "Coq codec model + round-trip proof (induction on type references and lists) + composition with the view soundness theorem; differential correspondence of the full JSON answer; projection oracles for other query shapes",
     },
     "C08": {
         "text": "Theorem C08_conflict_fails: for ALL pairs of schemas, if the accumulated schema and the new one define the same name and the pair is a conflict (different kinds; a non-shared object/interface/union/enum/input defined twice; boundary vs plain; namespace vs boundary; non-object federation type) the pairwise merge fails, wherever the definition sits and whatever else the schemas contain (induction over the fold with an invariant on the accumulator); C08_overlapping_boundary_field_fails for the field-level conflict. Order independence is decided per case: all n! merge orders (n <= 4) through the real MergeSchemas must give the same outcome and the same order-free schema signature; the routing tables after polling must not depend on the poll completion order (two forced orders); 35% of the cases carry one injected conflict of 10 kinds, which every order must reject.",
